@@ -37,15 +37,41 @@ Matches ==
        [] Ev.ev = "PStart" -> E1.obj = Ev.obj /\ E1.n = Ev.n
        [] Ev.ev = "PEnd" -> E1.obj = Ev.obj /\ E1.n = Ev.n /\ E1.out = Ev.out
        [] Ev.ev = "WaitRet" -> RowSet(Ev.snap) = DurSet /\ Ev.reason = dreason
+       [] Ev.ev = "NewProc" -> E1.running = Ev.running
        [] OTHER -> TRUE
 \* a write that repeats what is already stored
 Redundant == Ev.ev = "W" /\ dur[Ev.obj].st = Ev.st /\ Len(dur[Ev.obj].atts) = Ev.natt /\ UNCHANGED vars
-NotModelled == Ev.ev \in {"StartCall", "StartRet", "R", "Read", "End", "ApiRet", "Diverged"} /\ UNCHANGED vars
+\* (a new process that finds nothing to resume: the model goes straight to what Wait returns)
+NotModelled == (Ev.ev \in {"StartCall", "StartRet", "R", "Read", "End", "ApiRet", "Diverged"} \/ (Ev.ev = "NewProc" /\ ~Ev.running)) /\ UNCHANGED vars
 
 EngineStep == (alive /\ (Internal \/ PluginReturn)) \/ (~alive /\ NewProcess)
 CNext == \/ (More /\ ((EngineStep /\ Matches) \/ Redundant \/ NotModelled) /\ l' = l + 1)
          \/ (EngineStep /\ ~Emitted /\ UNCHANGED l)
-CInit == Init /\ l = 2
+(* A trace of a process that RESUMES a plan after a crash (crash-point rebuild, SIGKILL, write failure) starts    *)
+(* Config . Crash(what is on disk) . NewProc ...: the model starts dead, with exactly that durable state.          *)
+IsCrashTrace == Len(TraceLog) >= 2 /\ TraceLog[2].ev = "Crash"
+CrashRows == TraceLog[2].snap
+RowOf(o) == CHOOSE x \in ToSet(CrashRows) : x.obj = o
+CrashInit ==
+  /\ sh \in ShapeSet
+  /\ dur = [o \in ObjNames(sh) |-> [st |-> RowOf(o).st, atts |-> RowOf(o).atts]] /\ mem = dur
+  /\ dreason = TraceLog[2].reason /\ mreason = dreason
+  /\ pc = "dead" /\ cb = 1
+  /\ wk = [o \in {d.obj : d \in {x \in DescsOf(sh) : x.k = "seq"}} |-> WK0]
+  /\ lim = 0 /\ fails = 0 /\ li = 1
+  /\ am = [o \in {d.obj : d \in {x \in DescsOf(sh) : x.k \in {"act", "cact"}}} |-> "idle"]
+  /\ rn = [o \in {d.obj : d \in {x \in DescsOf(sh) : x.k = "chk"}} |-> [st |-> "idle", k |-> 0]]
+  /\ cl = [sc \in 0..Len(sh.blocks) |-> "off"]
+  /\ ch = [sc \in 0..Len(sh.blocks) |-> [err |-> FALSE, closed |-> FALSE, cancel |-> FALSE, started |-> FALSE]]
+  /\ runs = [sc \in 0..Len(sh.blocks) |-> 0]
+  /\ waiter = "none" /\ alive = FALSE /\ crashes = 1
+  /\ ncall = [o \in {d.obj : d \in {x \in DescsOf(sh) : x.k \in {"act", "cact"}}} |-> 0]
+  /\ fate = [o \in {d.obj : d \in {x \in DescsOf(sh) : x.k \in {"act", "cact"}}} |-> "?"]
+  /\ wq = <<>> /\ aged = TraceLog[2].old
+  /\ obs = Observe(InitObs(ConfigOf(sh)), [ev |-> "Crash", snap |-> SnapSeq(dur), reason |-> dreason, base |-> "-", old |-> aged, recovery |-> TRUE])
+  /\ bad = {} /\ hist = <<[ev |-> "none"], 0>>
+  /\ l = 3
+CInit == IF IsCrashTrace THEN CrashInit ELSE (Init /\ l = 2)
 CSpec == CInit /\ [][CNext]_cvars
 
 Mark == TLCGet(1) < l => TLCSet(1, l)
